@@ -5,6 +5,7 @@ use std::process::ExitCode;
 
 pub mod proto;
 pub mod l2;
+pub mod l3;
 
 pub fn dispatch() -> Option<ExitCode> {
     let args: Vec<String> = std::env::args().collect();
@@ -31,6 +32,7 @@ pub fn dispatch() -> Option<ExitCode> {
 fn handle(toks: &[&str]) -> String {
     match toks[0] {
         "l2" => l2::run(&toks[1..]).unwrap_or_else(|| "bad-op".to_string()),
+        "l3" => l3::run(&toks[1..]).unwrap_or_else(|| "bad-op".to_string()),
         _ => "bad-op".to_string(),
     }
 }
